@@ -32,6 +32,13 @@ def nListeners : Nat := 4
 def step (es : EState) (fs : List String) (obs : String) : EState × String × String :=
   match fs with
   | ["ev", "reset"] => ({}, render init nListeners, "ok")
+  | ["ev", "shutdown", _backend, _order] =>
+    -- C19: a component that has been shut down is not notified of any later change (and shutting it down returns)
+    (es, "mailbox=0;parked=0",
+      if obs = "mailbox=0;parked=0" then "ok"
+      else if obs.startsWith "HANG" then "bad:operation-does-not-complete"
+      else if obs.startsWith "panic" then "bad:panic"
+      else "bad:shut-down-component-still-notified")
   | ["ev", "janitor", _backend, _a, _b] =>
     -- Props/C19 cleanup_task_follows_latest_interval: two delivered changes, the task busy in between
     let m := (Rv.Mailbox.run true [.deliver 1, .deliver 2, .drain, .drain] (Rv.Mailbox.init 0)).interval
